@@ -79,6 +79,38 @@ pub fn replay(cases: &str, verdicts: &str) {
                 v.check(ok, side, &class, &c, json!(g.as_ref().map(|r| fjs(r))));
             }
         }
+        // one ulp BEYOND an end knot is outside the range: the mode decides (panic / fill value / the end segment's line)
+        if (pos == "first-knot" || pos == "last-knot") && c["fam"] != "steep" {
+            // also with the axis shifted (exactly, by an integer) so that the end knot is +-1 and its neighbour lies on the other
+            // side of zero: there "target minus neighbouring knot" rounds, and a test on the rounded ratio cannot see the ulp
+            let shifts: Vec<f64> = if c["fam"] == "small" { vec![0.0, if pos == "last-knot" { 1.0 - t } else { -1.0 - t }] } else { vec![0.0] };
+            for (shift, variant) in shifts.iter().flat_map(|sh| ["checked", "unchecked"].iter().map(move |vr| (*sh, *vr))) {
+                let xs: Vec<f64> = x.iter().map(|a| a + shift).collect();
+                let t0 = t + shift;
+                let (tt, side, fill) = if pos == "last-knot" { (next_up(t0), "ulp-beyond-last", num(&c["mode"]["right"])) } else { (next_down(t0), "ulp-beyond-first", num(&c["mode"]["left"])) };
+                let side = if shift == 0.0 { side.to_string() } else { format!("{} axis-shifted", side) };
+                let side = side.as_str();
+                let g = guard(|| if variant == "checked" { interp1d_linear(&xs, &y, &[tt], mode_of(&c["mode"])).to_vec() } else { interp1d_linear_unchecked(&xs, &y, &[tt], mode_of(&c["mode"])).to_vec() });
+                let ok = match (mk, &g) {
+                    ("panic", None) => true,
+                    ("fill", Some(r)) => r.len() == 1 && r[0] == fill,
+                    ("extrap", Some(r)) => r.len() == 1 && (r[0] - ev).abs() <= scale * 2f64.powi(-40),
+                    _ => false,
+                };
+                v.check(ok, &format!("{} {}", variant, side), &class, &c, json!(g.as_ref().map(|r| fjs(r))));
+            }
+        }
+        // signed zero: a target of -0.0 is the target 0 (and a knot of -0.0 is the knot 0)
+        if t == 0.0 {
+            for variant in ["checked", "unchecked"] {
+                let run = |xs: &[f64], tg: f64| guard(|| if variant == "checked" { interp1d_linear(xs, &y, &[tg], mode_of(&c["mode"])).to_vec() } else { interp1d_linear_unchecked(xs, &y, &[tg], mode_of(&c["mode"])).to_vec() });
+                let g = run(&x, -0.0);
+                v.check(judge(&g, 1), &format!("{} negative-zero target", variant), &class, &c, json!(g.as_ref().map(|r| fjs(r))));
+                let xz: Vec<f64> = x.iter().map(|a| if *a == 0.0 { -0.0 } else { *a }).collect();
+                let g = run(&xz, 0.0);
+                v.check(judge(&g, 1), &format!("{} negative-zero knot", variant), &class, &c, json!(g.as_ref().map(|r| fjs(r))));
+            }
+        }
         // checked variant rejects unsorted abscissae and both reject mismatched lengths
         if pos == "inside" && mk == "extrap" {
             let mut xs = x.clone();
